@@ -18,7 +18,7 @@ PROPERTY = "C04"
 
 EXC_KINDS = ("SerialException", "OSError")   # what pyserial backends raise (RuntimeError is not)
 FAULTS = Profile(write_exc=EXC_KINDS, read_exc=EXC_KINDS,
-                 latency=(0, 26), content=("err", "nameerr", "wrong"), silent=True,
+                 latency=(0, 1, 26), content=("err", "nameerr", "wrong"), silent=True,
                  read_window=2)
 
 CONNECT_ENVS = ("ok", "nonebb", "openfail", "silent", "oldfw", "versionless", "missingname")
@@ -105,6 +105,9 @@ def run_history(chooser, steps):
                 # bus); C05 decides the return value, here only the latch is demanded.
                 fired = [f for p in ports for f in p.faults][pre_faults:]
                 raised = [f for f in fired if f[1] in ("write_exc", "read_exc")]
+                # ... and so do a device error reply, an unexpected reply and a timeout
+                refused = [f for f in fired if f[1] in ("content", "silent") or
+                           (f[1] == "latency" and f[2] >= 26)]
                 sent = [w for p in ports for w in p.write_attempts][pre_writes:]
                 last = sent[-1].decode("ascii", "replace") if sent else ""
                 name = last.split(",")[0].strip().lower()
@@ -117,6 +120,12 @@ def run_history(chooser, steps):
                         viols.append((f"unlatched:{method}", f"{where}{desc}: the port raised "
                                       f"{raised[0][2]} during {last!r} but no error was "
                                       f"recorded, later requests will transmit"))
+                elif refused and exc is None and obj.err is None and obj.port is not None \
+                        and name not in ("r", "rb", "bl"):
+                    what = ", ".join(f"{k}={v}" for _t, k, v in fired)
+                    viols.append((f"unlatched:{method}", f"{where}{desc}: the board's answer to "
+                                  f"{last!r} was faulty ({what}) but no error was recorded, "
+                                  f"later requests will transmit"))
             history.append(desc)
         elif kind in ("disconnect", "disconnect_fault"):
             if kind == "disconnect_fault" and ports:
@@ -244,6 +253,16 @@ def run(ctx):
     ops = operations()
     bound = ctx.pick(1, 2)
     jobs = [((), op, bound) for op in ops]
+    if not ctx.thorough:
+        # two deviations in one request (a late *and* wrong reply, a fault after an empty read)
+        # for one representative of each kind of request
+        deep = ("command", "query", "query_statusbyte", "xy_move", "pen_lower", "var_write",
+                "var_read_int32", "write_nickname", "motors_enable", "query_steps")
+        seen = set()
+        for op in ops:
+            if op[1] in deep and op[1] not in seen:
+                seen.add(op[1])
+                jobs.append(((), op, 2))
     if ctx.thorough:
         # two healthy operations before the faulted one (reduced prefix alphabet)
         prefixes = [op for op in ops if op[1] in ("motors_enable", "var_write", "write_nickname",
@@ -311,12 +330,13 @@ def run(ctx):
         "blocked_states_discovered": error_states,
         "distinct_error_messages": distinct_msgs,
         "deviation_bound_from_healthy": bound,
+        "requests_also_explored_with_two_deviations": 10 if not ctx.thorough else len(ops),
         "max_history_depth": 4 + (1 if ctx.thorough else 0),
         "exhaustive": True,
     }
     assumptions = [
         "environment alphabet per I/O point: write raises (SerialException, OSError), board "
-        "silent, reply late (26 empty reads), device error line, name+error line, wrong-name "
+        "silent, reply late (1 or 26 empty reads), device error line, name+error line, wrong-name "
         "line, read raises at the first two reads of each request",
         "a blocked method that performs no I/O meets no choice point, so running blocked "
         "methods with faults armed adds no executions; write *attempts* are counted",
